@@ -176,6 +176,63 @@ def lockbusy_sweep(kinds, kmax, tag, nthird=(3, 7)):
     return fn
 
 
+KIND_CUTS = [(3, (1, 2)),      # a8_cas: compare_exchange on a signal state
+             (2, (1, 2)),      # a8_store: final store / reset of a signal state
+             (7, (1, 2, 3)),   # ab_cas: acquisition of the channel lock
+             (6, (1, 2)),      # ab_store: release of the channel lock
+             (14, (1,)),       # park
+             (15, (1,)),       # unpark
+             (26, (1, 2)),     # write of the waker field
+             (206, (1,)),      # waker wake
+             (12, (1,)), (11, (1,))]   # payload write / read through a raw pointer
+
+
+def kind_sweep(base_fn, nb, tag, from_phase=0):
+    """programs_fn: base scenarios, each re-run with one process cut (solo) exactly before its n-th hook of one kind
+    (compare_exchange / store on a signal, lock acquisition / release, park / unpark, waker write / wake, payload copy)"""
+    def fn(tier, seed):
+        rng = random.Random("%s/%d" % (tag, seed))
+        n = nb[0] if tier == "quick" else nb[1]
+        out = []
+        for _ in range(n):
+            base = base_fn(rng)
+            np_ = len(base["procs"])
+            for victim in range(np_):
+                for kind, ns in KIND_CUTS:
+                    for k in ns:
+                        p = json.loads(json.dumps(base))
+                        st = dict(p.get("strat", {}))
+                        st.update({"freeze": [victim, k, from_phase, 1], "freeze_kind": kind, "p_spurious": 0.5, "max_spurious": 3,
+                                   "seed": rng.randrange(1 << 30)})
+                        p["strat"] = st
+                        p["execs"] = 1
+                        out.append(p)
+        return out
+    return fn
+
+
+def handlepair_sweep(kmax, tag, nrand=(40, 600)):
+    """programs_fn: every clone / convert variant of both sides against close (and random other pairs), the first process cut before each
+    of its hooks of the race phase"""
+    def fn(tier, seed):
+        rng = random.Random("%s/%d" % (tag, seed))
+        km = kmax[0] if tier == "quick" else kmax[1]
+        pairs = [(a, b) for a in gen.HANDLE_PAIR_OPS if a[0].startswith("clone") or a[0].startswith("to_") for b in (("close", "s"), ("close", "r"))]
+        pairs += [(rng.choice(gen.HANDLE_PAIR_OPS), rng.choice(gen.HANDLE_PAIR_OPS)) for _ in range(nrand[0] if tier == "quick" else nrand[1])]
+        out = []
+        for a, b in pairs:
+            base = gen.gen_handlepair(rng, a, b)
+            for k in range(1, km + 1):
+                p = json.loads(json.dumps(base))
+                st = dict(p.get("strat", {}))
+                st.update({"freeze": [0, k, 1, 1], "seed": rng.randrange(1 << 30)})
+                p["strat"] = st
+                p["execs"] = 1
+                out.append(p)
+        return out
+    return fn
+
+
 def casrace_sweep(tag):
     """programs_fn: waiter kind x event (gen.casrace_combos); the waiter is cut exactly before its n-th compare_exchange on its own
     signal (n = 1, 2) or before its n-th Acquire/Relaxed load of it after the spin phase, while the event runs to the end"""
@@ -279,7 +336,9 @@ PLANS = {
                       R("timed", (100, 3000), (3, 6), None, False, rawmon=[("HBMonitor", "HBMonitor.cfg")]),
                       R("pairsweep", (0, 0), (1, 1), None, False, programs_fn=freeze_sweep("pair", (14, 400), (40, 60), "pairsweep7", victims=(0, 1), from_phase=3, solo=1),
                         rawmon=[("HBMonitor", "HBMonitor.cfg")]),
-                      R("discrace", (0, 0), (1, 1), None, False, programs_fn=discrace_sweep(12, (40, 60), "discrace07"), rawmon=[("HBMonitor", "HBMonitor.cfg")])],
+                      R("discrace", (0, 0), (1, 1), None, False, programs_fn=discrace_sweep(12, (40, 60), "discrace07"), rawmon=[("HBMonitor", "HBMonitor.cfg")]),
+                      R("kindsweep", (0, 0), (1, 1), None, False, programs_fn=kind_sweep(lambda rng: gen.gen_progress(rng) if rng.random() < 0.6 else gen.gen_casrace(rng), (14, 300), "kind07"),
+                        rawmon=[("HBMonitor", "HBMonitor.cfg")])],
                 assume=["happens-before is computed from the orderings actually passed to the atomics on sequentially consistent interleavings; stale relaxed reads of weaker-than-SC executions are not enumerated"]),
     "C08": dict(mc=MC("sync", thorough=["t_sync"]), spec_l1l0=True, runs=[R("capacity", (300, 5000), (3, 6), "C08", True), R("general", (150, 2000), (3, 5), "C08", True),
                                                            R("chain_z", (200, 3000), (2, 4), "C08", True), R("chain_s", (100, 2000), (2, 4), "C08", True),
@@ -292,7 +351,8 @@ PLANS = {
                                         R("discrace", (0, 0), (1, 1), "C11", True, own_all=True, programs_fn=discrace_sweep(48, (40, 60), "discrace11")),
                       R("casrace", (0, 0), (1, 1), "C11", True, own_all=True, programs_fn=casrace_sweep("casrace11"))]),
     "C12": dict(mc=MC("handles", "closeclone", bounded=["t_handles"]) + MCA("1p"), spec_l1l0=True, runs=[R("hseq", (0, 0), (1, 1), "C12", True, programs_fn=handle_programs, own_all=True),
-                                        R("handles", (300, 5000), (3, 6), "C12", True)]),
+                                        R("handles", (300, 5000), (3, 6), "C12", True),
+                                        R("handlepair", (0, 0), (1, 1), "C12", True, own_all=True, programs_fn=handlepair_sweep((10, 14), "handlepair12"))]),
     "C13": dict(mc=MC("timed", bounded=["t_timed"]), spec_l1l0=True, runs=[R("timed", (400, 6000), (4, 8), "C13", True), R("chain", (150, 3000), (2, 6), "C13", True),
                                                            R("lockhold", (0, 0), (1, 1), "C13", True, own_all=True, programs_fn=lockhold_sweep(24, (12, 16), "lockhold13")),
                                                            R("casrace", (0, 0), (1, 1), "C13", True, own_all=True, programs_fn=casrace_sweep("casrace13"))]),
@@ -302,7 +362,8 @@ PLANS = {
                 assume=["bit patterns: u8 exhaustive (every value on rotating paths), u16 boundary + random, larger classes checksum-tagged ids; the TLA+ side carries identities, bytes are compared by the harness projection id <-> bytes"]),
     "C06": dict(mc=MC("sync", "async", "live_sync", "live_async", "live_timed", thorough=["t_sync", "t_async"]), spec_replay=True, runs=[R("progress", (500, 8000), (3, 6), "ALL", True, own_all=True), R("chain", (100, 2000), (2, 4), None, True, own_all=True),
                                                                 R("waiters", (250, 5000), (2, 4), None, True, own_all=True),
-                                                                R("casrace", (0, 0), (1, 1), None, True, own_all=True, programs_fn=casrace_sweep("casrace06"))]),
+                                                                R("casrace", (0, 0), (1, 1), None, True, own_all=True, programs_fn=casrace_sweep("casrace06")),
+                                                                R("kindsweep", (0, 0), (1, 1), None, True, own_all=True, programs_fn=kind_sweep(gen.gen_progress, (6, 300), "kind06"))]),
     "C09": dict(mc=MC("mixed", bounded=["t_mixed"]), spec_l1l0=True, runs=[R("mixed", (400, 8000), (3, 6), "C09", True, own_all=True),
                                       R("hseq", (0, 0), (1, 1), "C09", True, programs_fn=handle_programs, own_all=True)]),
     "C14": dict(mc=MC("try"), runs=[R("try", (300, 6000), (3, 6), None, True, rawmon=[("NonBlocking", "NonBlocking.cfg")]),
